@@ -112,7 +112,12 @@ structure Acc where
   last  : Option (FMap × Nat)
   deriving Repr, DecidableEq, Inhabited
 
-/-- one candidate position of the Read loop (`start` = position of a signature) -/
+/-- one candidate position of the Read loop (`start` = position of a signature).
+    NOTE (C20): since fixes/C20-fmap-read-quadratic.diff the Go loop returns `errMultipleFound` as
+    soon as the *second* header-valid candidate is seen, before parsing its areas.  This functional
+    model keeps visiting (and can therefore report `.eof` where Go now reports "multiple"); the two
+    agree on ok-vs-error, which is all C13 compares.  The Go control flow is modelled in
+    `Fmap/Total.lean` (`visitG`, `readLoopG`). -/
 def visit (data : Bytes) (acc : Acc) (start : Nat) : Except Err Acc :=
   if start + headerSize > data.length then .error .eof
   else
@@ -164,18 +169,16 @@ def write (img : Bytes) (f : FMap) (start : Nat) : Except Err Bytes :=
 
 /-! ### areas -/
 
-/-- `ReadArea`: a buffer of `Size` bytes filled from the image; short read = the bytes
-    available, zero filled, plus an error flag (Go returns both the buffer and io.EOF). -/
+/-- `ReadArea` (as repaired by fixes/C20-fmap-readarea-alloc.diff): `io.ReadAll` over the section
+    `[Offset, Offset+Size)` of the reader — the bytes that are there, plus an error flag when they
+    are fewer than `Size` (Go returns both the partial buffer and io.ErrUnexpectedEOF). -/
 def readArea (f : FMap) (img : Bytes) (i : Int) : Except Err (Bytes × Bool) :=
   if i < 0 || (f.hdr.nAreas : Int) ≤ i then .error .range
   else match f.areas[i.toNat]? with
     | none => .error .range   -- Go would panic: NAreas > len(Areas); excluded by Read's results
     | some a =>
       let got := slice img a.offset a.size
-      -- bytes.Reader.ReadAt: io.EOF when the offset is at/after the end (even for an empty
-      -- buffer) or when fewer than Size bytes are available
-      .ok (got ++ List.replicate (a.size - got.length) 0,
-           decide (img.length ≤ a.offset) || decide (got.length < a.size))
+      .ok (got, decide (got.length < a.size))
 
 def writeArea (f : FMap) (img : Bytes) (i : Int) (data : Bytes) : Except Err Bytes :=
   if i < 0 || (f.hdr.nAreas : Int) ≤ i then .error .range
